@@ -13,7 +13,15 @@ use vibesql_types::SqlValue;
 struct Case {
     schema: Schema,
     pk_type: &'static str,
+    /// rows as inserted
+    loaded: Vec<Vec<Lit>>,
+    /// statements executed after loading (key-changing UPDATEs, a DELETE + re-INSERT): the table
+    /// state the property quantifies over is reached by a history, not only by INSERTs
+    pre: Vec<String>,
+    /// rows after `pre` (what the table holds when the statement under test runs)
     rows: Vec<Vec<Lit>>,
+    /// key values that were held by some row earlier in the history and are free now
+    stale_ids: Vec<i64>,
 }
 
 fn create_sql(c: &Case) -> String {
@@ -39,9 +47,13 @@ fn setup(c: &Case) -> (Db, String) {
     let cs = create_sql(c);
     db.must(&cs);
     script.push_str(&format!("{};\n", cs));
-    for r in &c.rows {
+    for r in &c.loaded {
         let sql = format!("INSERT INTO {} SELECT {}", c.schema.table, r.iter().map(|v| v.sql()).collect::<Vec<_>>().join(", "));
         db.must(&sql);
+        script.push_str(&format!("{};\n", sql));
+    }
+    for sql in &c.pre {
+        db.must(sql);
         script.push_str(&format!("{};\n", sql));
     }
     (db, script)
@@ -75,14 +87,38 @@ fn gen_case(r: &mut Rng) -> Case {
         row[0] = Lit::I(ids[i]);
     }
     let pk_type = *r.pick(&["INTEGER", "INTEGER", "BIGINT"]);
-    Case { schema, pk_type, rows }
+    let loaded = rows.clone();
+    // history before the statement under test: key-changing single-row UPDATEs (the old key
+    // becomes stale), sometimes followed by re-using a stale key for another row
+    let mut pre = vec![];
+    let mut stale_ids = vec![];
+    let mut free: Vec<i64> = ids[n..].to_vec();
+    // (UPDATE of a BIGINT column with an INTEGER literal is rejected by the engine: type mismatch)
+    if !rows.is_empty() && pk_type == "INTEGER" && r.chance(1, 2) {
+        let steps = r.range(1, 2);
+        for _ in 0..steps {
+            let i = r.below(rows.len() as u64) as usize;
+            let old = match rows[i][0] {
+                Lit::I(x) => x,
+                _ => continue,
+            };
+            let new = if !stale_ids.is_empty() && r.chance(1, 3) { stale_ids.remove(0) } else if let Some(x) = free.pop() { x } else { continue };
+            pre.push(format!("UPDATE t SET id = {} WHERE id = {}", Lit::I(new).sql(), Lit::I(old).sql()));
+            rows[i][0] = Lit::I(new);
+            stale_ids.push(old);
+        }
+    }
+    Case { schema, pk_type, loaded, pre, rows, stale_ids }
 }
 
 /// WHERE predicate as SQL + model expression + a label; covers the fast path and its neighbours
 fn gen_pred(r: &mut Rng, c: &Case) -> (String, Sx, &'static str) {
     let names: Vec<String> = c.schema.cols.iter().map(|x| x.0.clone()).collect();
     let g = Gen::new(&c.schema);
-    let some_id = if !c.rows.is_empty() && r.chance(3, 4) {
+    let some_id = if !c.stale_ids.is_empty() && r.chance(1, 2) {
+        // a key some row held earlier in the history
+        *r.pick(&c.stale_ids)
+    } else if !c.rows.is_empty() && r.chance(3, 4) {
         match &c.rows[r.below(c.rows.len() as u64) as usize][0] {
             Lit::I(i) => *i,
             _ => 0,
@@ -307,7 +343,10 @@ fn main() {
         let mut r = rng.fork();
         let c = gen_case(&mut r);
         if i < 3 {
-            rep.sample(serde_json::json!({"create": create_sql(&c), "rows": c.rows.len()}));
+            rep.sample(serde_json::json!({"create": create_sql(&c), "rows": c.rows.len(), "history_before_statement": c.pre}));
+        }
+        if !c.pre.is_empty() {
+            rep.count("case_with_key_changing_history");
         }
         match i % 5 {
             0 | 1 => run_delete(&c, &mut r, &mut model, &mut rep),
